@@ -187,10 +187,18 @@ pub fn apply_dops(mut dict: Dictionary, dops: &[DOp], obs: &mut Vec<String>) -> 
 }
 
 pub fn tokens_obs(worker: &vibrato::tokenizer::worker::Worker) -> String {
-    let n = worker.num_tokens();
+    // the two ways of reading the result, `token(i)` and `token_iter()`, must give the same tokens: when they differ the
+    // iterator's reading is reported (`token(i)` is what every other observation uses)
+    let a = tokens_obs_from((0..worker.num_tokens()).map(|i| worker.token(i)));
+    let b = tokens_obs_from(worker.token_iter());
+    if a == b { a } else { b }
+}
+
+fn tokens_obs_from<'w, 't: 'w>(it: impl Iterator<Item = vibrato::token::Token<'w, 't>>) -> String {
+    let toks: Vec<_> = it.collect();
+    let n = toks.len();
     let mut s = format!("ok {n}");
-    for i in 0..n {
-        let t = worker.token(i);
+    for t in toks {
         let rc = t.range_char();
         let rb = t.range_byte();
         s.push_str(&format!(
